@@ -34,6 +34,61 @@ CLAIMED["C03"] = (
     "DESIGN.md §4 C03",
 )
 
+CLAIMED["C01"] = (
+    "bounded exhaustive enumeration of planted genotypes (all minor pairs, +1/+2 structural transitions) simulated as alignments and run through genotype(); premise evaluated by enumeration of structures",
+    "Every pair of catalogued minors (and each next to a whole-gene deletion), each extended by one (thorough: two) transitions - extra copy, fused copy, partially deleted copy - over generated databases on either strand, with/without pseudogene and alignment indels, read lengths 50-250, 20/30x, three indel placements, is simulated with a perfect aligner and genotyped end to end; the planted majors must be among the reported solutions and every reported solution must carry exactly the planted variants, whenever the planted structure is an optimum of the depths aldy computed (decided by cn_ref enumeration).",
+    "Trusted: the read simulator (checked by C06 against an independent CIGAR interpreter), cn_ref. Only catalogued alleles are planted. Shipped genes are not simulated in this tier.",
+    "DESIGN.md §4 C01",
+)
+CLAIMED["C04"] = (
+    "bounded exhaustive enumeration of evidence tables and phase patterns executed on estimate_minor, judged against enumeration of all (minor choice x per-site carried variant) assignments",
+    "Every noise-free table of every multiset of <=2-3 catalogued minors, and every table within 1 (thorough 2) deviations (cell scaling, uncatalogued-for-this-allele variant, novel core variant handed down, one read-phase pattern), over the toy gene and generated databases is refined by aldy and compared with a complete enumeration of admissible assignments: the rules of the property on the reported alleles, score = optimum, reported assignment = documented read-out of an optimal assignment, agreement on infeasibility, planted variants reproduced.",
+    "Trusted: mc/ref/minor_ref.py. Tolerance 5e-3 (documented tie-breaker). One major solution per call.",
+    "DESIGN.md §4 C04",
+)
+CLAIMED["C06"] = (
+    "bounded exhaustive enumeration of CIGAR strings (BFS, one operation per level) x start offsets x query variants on the real CIGAR walk, and of ordered read lists through the real file path, judged against an independent CIGAR interpreter and htslib",
+    "All CIGARs of <=3 operations (quick; a seed-rotated eighth of the 4-operation ones; thorough: all <=4) over {M,=,X,I,D,S} x lengths 1-3 at every start offset of a window with a SNV, two MNVs and a deletion site, with every single mismatch and complete/partial MNV, on both strands; all ordered lists of <=2 (thorough 3) reads from a menu of 17 awkward alignments as SAM text and BAM. Depth, per-variant counts, MNV merging, ineligible reads, quality classes, phase records are compared exactly.",
+    "Trusted: mc/ref/pileup_ref.py (80 lines) and pysam/htslib. Quality binning is checked by class, not by value.",
+    "DESIGN.md §4 C06",
+)
+CLAIMED["C07"] = (
+    "bounded exhaustive enumeration of samples x transformations (every read xk, gene reads xk, self-profile, neutral reads removed) executed on Sample/Profile, relational oracle on every edge",
+    "For every combination of generated database (either strand, with/without pseudogene), planted structure, awkward-read set, neutral-region choice and profile source (BAM, written profile file), and every transformation k in 2..5, the normalised region depths are compared across the edge: invariant under xk of all reads (and identical structure calls), linear in gene reads, exactly 2.0 against the own profile, rejected without neutral reads.",
+    "Trusted: the simulator. Tolerance 1e-9.",
+    "DESIGN.md §4 C07",
+)
+CLAIMED["C08"] = (
+    "exhaustive enumeration of every catalogued variant of every shipped database x build and of generated databases (both strands, alignment indels), sequence-level oracle",
+    "Every entry of every catalogue (38 shipped databases x 2 builds, toy, generated worlds) is applied in genome terms and in RefSeq terms and the haplotypes compared; reference alleles, inverse maps, written notation, the variant handed to indel realignment, the long-read equivalence table and inferred amino-acid effects (against an independent translation) are checked for each.",
+    "Trusted: 30 lines of sequence editing in mc/props/c08.py. Windows touching unmapped alignment columns are skipped and counted.",
+    "DESIGN.md §4 C08",
+)
+CLAIMED["C09"] = (
+    "exhaustive enumeration of shipped catalogues x builds plus BFS over generated allele tables (names, variant subsets, labels, structural suffixes), oracle = grouping recomputed from the YAML text",
+    "All shipped databases in both builds and every generated table (all pairs of names x all variant subsets; one (thorough two) transitions adding a label, a structural entry or a third allele) are loaded on opposite strands and compared with a grouping computed from the YAML in RefSeq terms: reachability through the alias table, partition into majors, core/silent split, distinct minors, configurations, partial alleles of fusions, build independence.",
+    "Trusted: yaml_alleles()/invariants() in mc/props/c09.py. The allele number 1 is reserved for the default configuration.",
+    "DESIGN.md §4 C09",
+)
+CLAIMED["C11"] = (
+    "breadth-first enumeration of called-allele multisets (one more copy per level), each evaluated in every permutation, invariant oracle",
+    "Every multiset of 0-4 (thorough 0-6) called copies over the toy gene, a generated database with a tandem entry, GSTM1, CYP2D6/CYP2A6 alphabets and CYP2C19, in every permutation of the copy order: partition, non-empty haplotypes, deletion placeholders, rendered names, tandem adjacency, natural order, order independence for <=2 copies.",
+    "Solutions are constructed directly. Beyond 4 copies only rotations and the reversal are permuted.",
+    "DESIGN.md §4 C11",
+)
+CLAIMED["C12"] = (
+    "breadth-first enumeration of solution lists (one more solution per level) through both writers, parsed back by independent parsers",
+    "Every single solution of 1-2 (thorough 3) copies over a copy alphabet with SNV/MNV/insertion/deletion definitions, added and lost variants, and every list extended by one (thorough two) further solutions, on generated databases of either strand (thorough: CYP2D6, CYP2C19): decomposition rows, coverage, effect, dbSNP, empty rows; VCF columns, GT/MA/MI/DP per copy, one-based POS, REF/ALT applied to the reference; round trip.",
+    "Own parsers. The toy database is excluded (its variants do not match its reference). Known finding D6a is matched by its exact signature.",
+    "DESIGN.md §4 C12",
+)
+CLAIMED["C18"] = (
+    "exhaustive product parameter x spelling x route, plus write->load histories, executed on Profile / main() / Profile.load",
+    "Every model parameter of Profile found by introspection x every spelling for its type (incl. malformed ones) x {constructor, --param with underscore and hyphen, options section, load keyword}, unknown names, None, and the write(profile command)->load round trip for every single parameter and every pair.",
+    "The command line is driven through the real main() with genotype() replaced by a recorder.",
+    "DESIGN.md §4 C18",
+)
+
 PENDING_REASON = "check not built yet in this session (design in DESIGN.md §4); not claimed until it runs silently on the unchanged tree"
 NOT_APPLICABLE = {}
 
